@@ -40,14 +40,14 @@ def run(ctx):
                         "not available offline)"]
     run.assumptions = ["property tables are literal class attributes (non-literal tables give ANALYSIS-ERROR)",
                        "python argument-binding and MRO semantics as encoded in sa/"]
-    rule_table(ctx)
-    rule_constraints(ctx)
-    rule_super_chain(ctx)
-    rule_init_pipeline(ctx)
-    rule_clean_contract(ctx)
-    rule_id_rule(ctx)
-    rule_regexes(ctx)
-    rule_tlp(ctx)
+    ctx.do(rule_table)
+    ctx.do(rule_constraints)
+    ctx.do(rule_super_chain)
+    ctx.do(rule_init_pipeline)
+    ctx.do(rule_clean_contract)
+    ctx.do(rule_id_rule)
+    ctx.do(rule_regexes)
+    ctx.do(rule_tlp)
 
 
 # ---------------------------------------------------------------------------
